@@ -23,4 +23,4 @@ CONSTANTS
 SYMMETRY ThreadSym
 VIEW MCView
 INVARIANTS ConcTypeOK LinPossible IterSnapshot ReadExplained CommitComplete
-PROPERTIES OnlyLinWrites
+PROPERTIES OnlyLinWrites ReadResAgrees
